@@ -26,7 +26,7 @@ REVERSIBLE = {
     "add_reactions", "readd", "remove_reactions", "add_metabolites", "remove_metabolites", "add_boundary", "rxn_add_mets",
     "bounds", "bounds_seq", "rule", "gene_state", "knock_out_model_genes", "objective", "direction", "imul", "iadd", "isub",
     "remove_genes", "rename_genes", "add_cons", "add_var", "remove_cons", "medium", "optimize", "solver",
-    "from_string", "merge", "helper",
+    "from_string", "merge", "helper", "detached_arith",
 }
 
 _k = st.integers(0, 23)
@@ -68,6 +68,8 @@ OPS: Dict[str, Any] = {
                            orphans=st.booleans(), single=st.booleans(), via=st.sampled_from(["model", "model", "rxn"])),
     "readd": _d("readd", k=_k),
     "detached_bounds": _d("detached_bounds", k=_k, b=_bnd),
+    # pure functions of a reaction object that is outside the model but still refers to the model's metabolites and genes
+    "detached_arith": _d("detached_arith", k=_k, kind=st.sampled_from(["copy", "copy", "mul", "add", "sub"])),
     "add_metabolites": _d("add_metabolites", mets=st.lists(_mid_new, min_size=1, max_size=3, unique=True), single=st.booleans(),
                           own=st.booleans()),
     "remove_metabolites": _d("remove_metabolites", sels=st.lists(_k, min_size=1, max_size=2), destructive=st.booleans(),
@@ -362,6 +364,23 @@ class World:
         if r.model is not None:
             return "skipped:attached"
         r.bounds = tuple(op["b"])
+
+    def op_detached_arith(self, op):
+        """Reaction.copy / * / + / - on a reaction that was taken out of the model: they return new objects and must leave
+        the model (whose metabolites and genes the reaction still refers to) alone."""
+        pool = self.graveyard + self.detached
+        if not pool:
+            return "skipped:empty"
+        r = pool[op["k"] % len(pool)]
+        if r.model is not None:
+            return "skipped:attached"
+        if op["kind"] == "copy":
+            r.copy()
+        elif op["kind"] == "mul":
+            r * 2
+        else:
+            other = self.pick(self.model.reactions, op["k"]) if len(self.model.reactions) else r
+            (r + other) if op["kind"] == "add" else (r - other)
 
     def op_readd(self, op):
         """Give a reaction object that remove_reactions took out back to the model (the same object)."""
